@@ -51,7 +51,7 @@ def compared_literals(root, subject):
         if isinstance(n, ast.Compare) and len(n.ops) == 1 and isinstance(n.ops[0], (ast.Eq, ast.NotEq, ast.In, ast.NotIn)):
             l, r = n.left, n.comparators[0]
             for a, b in ((l, r), (r, l)):
-                if src(a) == subject:
+                if src(a) == subject or (isinstance(a, ast.Call) and isinstance(a.func, ast.Attribute) and a.func.attr in ("lower", "upper", "casefold") and not a.args and src(a.func.value) == subject):
                     for c in ast.walk(b):
                         if isinstance(c, ast.Constant) and isinstance(c.value, str):
                             out.add(c.value)
@@ -198,6 +198,12 @@ def run(ctx):
     reach = reachable_from(prog, [ninit.qual])
     ctx.ob("R-ORDER", "C20.5", ninit, "flow / uninformed proposal configured (and their options validated) from the sampler constructor",
            cfp.qual in reach and prog.fn(tables.NS + ".configure_uninformed_proposal").qual in reach and ctx.fn("nessai.proposal.utils:get_flow_proposal_class").qual in reach, "")
+    # an option string is compared under one normalisation (a name that is looked up case-insensitively is not tested raw)
+    from ..rules import optnorm as _on
+    _hits = _on.scan(prog)
+    ctx.require(len(_hits) >= 1, "no comparison of a case-normalised option string found (configure_post_rescaling expected)")
+    for _f, _n, _ok, _why in _hits:
+        ctx.ob("R-NORM", "C20.3", _f, "an option that is looked up case-insensitively is compared with its literal values under the same normalisation", _ok, _why, node=_n)
     ctx.floor("C20.3", 60)
     ctx.floor("C20.5", 6)
 
